@@ -240,3 +240,15 @@ func VerifH_C07_silent_while_closing() {
 		verif.Assert(w.rec.count("close") == 1, "exactly once")
 	})
 }
+
+// C19 (integration): the same heartbeat scripts with the repository's own utils/timer.go
+// executed on the runtime-timer model instead of the contract-level timer model: the
+// session's ping interval / ping timeout timers (SetTimeout, Refresh, ClearTimeout from
+// engine/socket.go) behave as the heartbeat reference expects for every symbolic interval,
+// timeout and packet instant.
+func VerifH_C19_heartbeat_v4_on_real_timers() {
+	verif.RunTimed(func() { verif.RealTimers(); c07v4(3) })
+}
+func VerifH_C19_heartbeat_v3_on_real_timers() {
+	verif.RunTimed(func() { verif.RealTimers(); c07v3(3) })
+}
